@@ -335,7 +335,7 @@ def c20_dir(ctx):
 def c20_custom(ctx, spec, tier, seed, run_engine):
     run = dict(engine="lambdagen", profile="release", args=["--run", c20_dir(ctx)], group="shapes",
                timeout=dict(quick=1500, thorough=3000))
-    return [run_engine(ctx, run, tier, seed, label="lambdagen/release (generated crate: 2464 macro shapes vs hand-written recursion)")]
+    return [run_engine(ctx, run, tier, seed, label="lambdagen/release (generated crate: 2988 macro shapes vs hand-written recursion, debug assertions off and on)")]
 
 
 def c20_setup(ctx, spec):
